@@ -28,7 +28,10 @@ A schedule is a list of task indices; a finished / unknown task is a no-op.  Eve
 replayable from (scenario, schedule).
 
 Scenario = dict(setup=[('connect', eio, ns) | ('enter', sid, ns, room) | ('ack', sid, ns)],
-                raising=[sid, ...], causes=[('api', sid, ns) | ('client', eio, ns) | ('loss', eio, reason)])
+                raising=[sid, ...], causes=[('api', sid, ns) | ('apiq', sid, ns) | ('client', eio, ns) | ('loss', eio, reason)])
+('apiq' = the same call with ignore_queue=True; the unlocked pre-check then goes through
+manager.is_connected directly instead of manager.can_disconnect -> is_connected: same wrapped access,
+same 'Check' label.)
 Session ids are S0, S1, ... in the order of the ('connect', ...) entries.
 """
 import asyncio
@@ -238,7 +241,7 @@ def _namespaces(scenario):
         if op[0] == 'connect' and op[2] not in out:
             out.append(op[2])
     for c in scenario['causes']:
-        if c[0] in ('api', 'client') and c[2] not in out:
+        if c[0] in ('api', 'apiq', 'client') and c[2] not in out:
             out.append(c[2])
     return out
 
@@ -390,10 +393,10 @@ def run_threads(scenario, sched, extend=None, max_steps=400):
         sio.eio.handlers[ev] = make(sio.eio.handlers[ev])
 
     def body(c):
-        if c[0] == 'api':
+        if c[0] in ('api', 'apiq'):     # 'apiq' = disconnect(sid, namespace, ignore_queue=True)
             def f():
                 try:
-                    sio.disconnect(c[1], namespace=c[2])
+                    sio.disconnect(c[1], namespace=c[2], ignore_queue=(c[0] == 'apiq'))
                 except Abort:
                     raise
                 except BaseException as e:
@@ -550,10 +553,10 @@ async def _run_async(scenario, sched, extend, max_steps):
         sio.eio.handlers[ev] = make(sio.eio.handlers[ev])
 
     def cause_coro(c):
-        if c[0] == 'api':
+        if c[0] in ('api', 'apiq'):     # 'apiq' = disconnect(sid, namespace, ignore_queue=True)
             async def f():
                 try:
-                    await sio.disconnect(c[1], namespace=c[2])
+                    await sio.disconnect(c[1], namespace=c[2], ignore_queue=(c[0] == 'apiq'))
                 except Abort:
                     raise
                 except BaseException as e:
